@@ -111,6 +111,8 @@ def simulators():
         'Gillespie_SIR': ('SIR', tm, lambda fd: EoN.Gillespie_SIR(G, 1.0, 1.0, initial_infecteds=[0, 2], initial_recovereds=[5], tmin=tm, return_full_data=fd)),
         'Gillespie_SIR(recovered nodes next to the seeds)': ('SIR', tm, lambda fd: EoN.Gillespie_SIR(G, 2.0, 0.5, initial_infecteds=[0, 2], initial_recovereds=[1, 4], tmin=tm, return_full_data=fd)),
         'fast_SIR(recovered nodes next to the seeds)': ('SIR', tm, lambda fd: EoN.fast_SIR(G, 2.0, 0.5, initial_infecteds=[0, 2], initial_recovereds=[1, 4], tmin=tm, return_full_data=fd)),
+        'discrete_SIR(horizon not a whole number of steps)': ('SIR', 2, lambda fd: EoN.discrete_SIR(G, test_transmission=lambda u, v: True, initial_infecteds=[0], tmin=2, tmax=4.5, return_full_data=fd)),
+        'basic_discrete_SIS(p=1, horizon not a whole number of steps)': ('SIS', 1, lambda fd: EoN.basic_discrete_SIS(G, 1.0, initial_infecteds=[0, 4], tmin=1, tmax=3.5, return_full_data=fd)),
         'discrete_SIR(recovered node next to the seed)': ('SIR', 2, lambda fd: EoN.discrete_SIR(G, test_transmission=lambda u, v: True, initial_infecteds=[0], initial_recovereds=[1], tmin=2, return_full_data=fd)),
         'Gillespie_SIR(weighted)': ('SIR', tm, lambda fd: EoN.Gillespie_SIR(G, 1.0, 1.0, rho=0.3, tmin=tm, transmission_weight='w', recovery_weight='r', return_full_data=fd)),
         'fast_SIS': ('SIS', tm, lambda fd: EoN.fast_SIS(G, 1.0, 1.0, initial_infecteds=[0, 2], tmin=tm, tmax=tm + 3, return_full_data=fd)),
@@ -173,7 +175,7 @@ def check_modes_agree(seeds=(1, 2, 3)):
                 infections += 1
                 if not G.has_edge(src, tgt):
                     return n, dict(simulator=name, seed=seed, observed='transmission %s along a non-edge' % ((tt_, src, tgt),))
-                step = 1 if name.startswith('discrete') else 0
+                step = 1 if 'discrete' in name else 0
                 if full.node_status(src, tt_) != 'I' and not (step and full.node_status(src, tt_) == 'I'):
                     return n, dict(simulator=name, seed=seed, observed='source %s is %s at time %s' % (src, full.node_status(src, tt_), tt_))
                 ht, hs = full.node_history(tgt)
